@@ -40,7 +40,13 @@ var paramGates = []string{"rx", "ry", "rz", "r"}
 func genQCase(runs func() int) func(t *rapid.T) QCase {
 	return func(t *rapid.T) QCase {
 		c := QCase{Runs: runs()}
-		c.Qubits = rapid.SampledFrom([]int{1, 2, 2, 3}).Draw(t, "qubits")
+		// the assembler needs 5..30 s for the emitted file of a 2..3 qubit circuit (4^n data sections, 2^n CPs with
+		// templated code): three qubits only in the thorough tier
+		sizes := []int{1, 2, 2}
+		if os.Getenv("VERIF_TIER") == "thorough" {
+			sizes = []int{1, 2, 2, 3}
+		}
+		c.Qubits = rapid.SampledFrom(sizes).Draw(t, "qubits")
 		c.Zero = rapid.Bool().Draw(t, "zero")
 		c.Flavor = rapid.SampledFrom([]string{"seq_hardcoded_real", "seq_hardcoded_complex", "seq_hardcoded_addtree_complex"}).Draw(t, "flavor")
 		real := c.Flavor == "seq_hardcoded_real"
